@@ -6,7 +6,7 @@
      *DataArray::TemplatedFlattenedSize / TemplatedFlatten / ..Unflatten  size_array / flat_array / dec_array
      MessageField::GetNumItemsInFlattenedBuffer / Unflatten               num_items_in_buffer / dec_field
      DataUnflattener::ReadInt32, ReadFlatWithLengthPrefix, ReadCString,
-       DataUnflattenerReadLimiter (clamping), String::SetCstr             rd32 / rd_lp_string / cstr / takeN
+       DataUnflattenerReadLimiter (clamping), String::Unflatten            rd32 / rd_lp_string / upto_nul / takeN
      Message::CalculateChecksum, MessageField::SingleCalculateChecksum,
        *DataArray::CalculateChecksum, CalculatePODChecksum                chk_msg ...
      Message::operator==, FieldsAreSubsetOf, MessageField::IsEqualTo,
